@@ -22,8 +22,8 @@ CRATES = {
 }
 
 
-def H(name, functions, bound, tiers=("quick", "thorough"), timeout=None, cuts=None, mem_gb=12, kani_args=None):
-    d = {"name": name, "functions": functions, "bound": bound, "tiers": list(tiers), "mem_gb": mem_gb}
+def H(name, functions, bound, tiers=("quick", "thorough"), timeout=None, cuts=None, mem_gb=12, kani_args=None, replay="native"):
+    d = {"name": name, "functions": functions, "bound": bound, "tiers": list(tiers), "mem_gb": mem_gb, "replay": replay}
     if timeout:
         d["timeout"] = timeout
     if cuts:
@@ -307,13 +307,13 @@ _BAL = "fuel_core::graphql_api::indexation::balances::"
 PROPS["C36"] = {
     "crate": "core",
     "level": "model_checking",
-    "explanation": "One executor event applied by the real balances indexer to an arbitrary stored balance: the stored value afterwards "
+    "explanation": "One executor event applied by the real balances indexer and by the real coins-to-spend indexer to an arbitrary stored state: the stored value afterwards "
                    "is the accounting equation (before +- amount in the right component, only the event's key written), a deduction "
                    "larger than the balance is an underflow error with no write, disabled indexation touches nothing. With exact "
                    "executor events this step preserves 'indexed balance = sum of unspent amounts'.",
     "bounds": "one event (CoinCreated / CoinConsumed / MessageImported / MessageConsumed, retryable or not) from any stored u128 "
               "balance or none, any u64 amount; owners and assets vary in one byte (equal or different keys)",
-    "outside": "the owned-coin / owned-message / coins-to-spend indexes (key insert/remove on real tables), the worker service, "
+    "outside": "the owned-coin / owned-message indexes (key insert/remove on real tables), the worker service that sequences the updates, "
                "exactness of the executor's events (C02), sums above u128::MAX - u64::MAX (saturating add)",
     "assumptions": ["one event touches one balance key, so a one-slot-per-table transaction mock is faithful for a single step",
                     "storage reads/writes of the mock succeed"],
@@ -321,6 +321,10 @@ PROPS["C36"] = {
         H("c36_coin_step", [_BAL + "update", _BAL + "increase_coin_balance", _BAL + "decrease_coin_balance"], "any stored coin balance, any coin event",
           cuts=["alloc::fmt::format -> empty string", "Backtrace::capture -> disabled"]),
         H("c36_message_step", [_BAL + "update", _BAL + "increase_message_balance", _BAL + "decrease_message_balance"], "any stored message balance, any message event",
+          cuts=["alloc::fmt::format -> empty string", "Backtrace::capture -> disabled"]),
+        H("c36_to_spend_step", ["fuel_core::graphql_api::indexation::coins_to_spend::update", "add_coin", "remove_coin", "add_message", "remove_message",
+                                "CoinsToSpendIndexKey::from_coin", "CoinsToSpendIndexKey::from_message"],
+          "one coin/message event against the coins-to-spend index (entry present or absent), any u64 amount",
           cuts=["alloc::fmt::format -> empty string", "Backtrace::capture -> disabled"]),
     ],
 }
@@ -348,12 +352,12 @@ PROPS["C42"] = {
           cuts=["Atomic<u64>::fetch_add -> performs the add and records it", "atomic::fence -> recorded", "panic::catch_unwind -> Ok(f()) (abort-on-panic model)"]),
         H("c42_reader_w1", [_SQ + "SeqLockReader::read"], "1 concurrent write, all schedules within the budget",
           cuts=["Atomic<u64>::load -> environment writer steps, then the load", "atomic::fence, thread::yield_now -> environment writer steps"],
-          timeout={"quick": 1500, "thorough": 3600}),
+          timeout={"quick": 1500, "thorough": 3600}, replay="kani"),
         H("c42_reader32_w1", [_SQ + "SeqLockReader::read"], "instantiation T = (u32, u32) (a value that fits in one machine word): 1 concurrent write",
           cuts=["Atomic<u64>::load -> environment writer steps, then the load", "atomic::fence, thread::yield_now -> environment writer steps"],
-          timeout={"quick": 1500, "thorough": 3600}),
+          timeout={"quick": 1500, "thorough": 3600}, replay="kani"),
         H("c42_reader_w2", [_SQ + "SeqLockReader::read"], "2 concurrent writes, all schedules within the budget",
           cuts=["Atomic<u64>::load -> environment writer steps, then the load", "atomic::fence, thread::yield_now -> environment writer steps"],
-          timeout={"quick": 1800, "thorough": 3600}),
+          timeout={"quick": 1800, "thorough": 3600}, replay="kani"),
     ],
 }
